@@ -48,7 +48,7 @@ MANIFEST = dict(
          'container and layout with LZMA as an inverse pair (header, 64-row table in standard and L4D2 field order, revision, '
          'payload placement in write order, game-lump directory with absolute offsets, NUL separators and the dummy entry); '
          'four wf conditions shown necessary. order_consistent bsp_graph, shape_ok bsp_shape, layout_ok bsp_layout, '
-         'bsp_layout = std_layout and 25 further named obligations are re-derived from bsp.py and kernel-checked on every run.',
+         'bsp_layout = std_layout and 24 further named obligations are re-derived from bsp.py and kernel-checked on every run.',
     note='Assumed in the theorems (visible hypotheses): each lump writer inverts its reader on the file\'s lumps (codec_ok, '
          'wr_len_ok: property C11); decompress (compress d) = d (CPython lzma). The container theorem is about the model '
          'Fmt/BspContainer.v, tied to BSP.read/BSP.save by byte-exact correspondence on random containers (not by a translator of '
@@ -1019,11 +1019,14 @@ def run(ck: Ck) -> None:
     for k, (opts, s) in enumerate(synth_subjects):
         attempt(s, opts, [[]])
         attempt(s, opts, [list(VIEWS)])
-        if 'aux' not in opts or ck.budget(0, 1):
-            attempt(s, opts, [list(reversed(VIEWS))])
-        # every single view on every layout; on the option variants a sample of 6 in the quick tier
         if k < len(c10_util.LAYOUTS) or ck.budget(0, 1):
+            attempt(s, opts, [list(reversed(VIEWS))])
+        # every single view on every layout (quick: on v19, v20, l4d2, chaos, vitamin; a sample of 8 on v21 and infra, which share
+        # their lump layouts' code paths with v20 / chaos); on the option variants a sample of 4 in the quick tier
+        if (k < len(c10_util.LAYOUTS) and dict(DEFAULT_OPTS, **opts)['layout'] not in ('v21', 'infra')) or ck.budget(0, 1):
             singles = VIEWS
+        elif k < len(c10_util.LAYOUTS):
+            singles = rng.sample(VIEWS, 8)
         elif 'aux' in opts:     # the views that own side lumps (and faces: FACEIDS), each alone
             singles = [v for v in VIEWS if v == 'faces' or sum(1 for w in own.values() if w == v) > 1]
         else:
